@@ -136,6 +136,9 @@ class RangeMapModel:
         q.ghost["insert_pos"] = p
         return [(NONE, q)]
 
+    def call_items(self, ex, recv, args, kwargs, q, node):
+        return [(("items", self.owner), q)]
+
     def call_get(self, ex, recv, args, kwargs, q, node):
         point = ex.toint(args[0], node)
         v = view_of(q, self.owner)
